@@ -190,7 +190,9 @@ def main():
     nontrivial, anchors_seen = set(), set()
     violations, samples = [], {}
     evaluations = returned = raised = skipped = 0
+    seconds = collections.Counter()
     for r in results:
+        seconds.update(r.get("seconds", {}))
         counters.update(r["counters"])
         calls.update(r["calls"])
         nontrivial.update(r["nontrivial"])
@@ -265,6 +267,7 @@ def main():
             "anchor_functions_executed": anchors_hit,
             "anchor_functions_not_executed": anchors_missed,
             "optional_cases_skipped_for_time_budget": skipped,
+            "cpu_seconds_per_case_kind": {k: round(v, 2) for k, v in seconds.items()},
             "shards": nshards,
             "inconclusive": inconclusive,
             "known_findings_observed": sorted(seen_known),
